@@ -218,8 +218,15 @@ class Check:
                 for n in ns:
                     f.write('Goal True. idtac "@@BEGIN %s". Abort.\nPrint Assumptions %s.\n' % (n, n))
                 f.write('Goal True. idtac "@@END". Abort.\n')
-            rc, out = sh(["coqc", "-Q", "theories", "DS", "-Q", "generated", "DSG", "-Q", "props", "DSP",
-                          "-Q", tmpd, "PA", fn], cwd=os.path.join(ROOT, "coq"), timeout=600)
+            # A run that was cut short from outside (killed, out of memory, time-out on an overloaded machine) prints
+            # neither the end marker nor a Coq error: that says nothing about the theorems, so it is repeated (a module
+            # that really no longer loads answers with "Error" at once, every time).
+            for attempt in range(4):
+                rc, out = sh(["coqc", "-Q", "theories", "DS", "-Q", "generated", "DSG", "-Q", "props", "DSP",
+                              "-Q", tmpd, "PA", fn], cwd=os.path.join(ROOT, "coq"), timeout=900)
+                if "@@END" in out or re.search(r"^Error", out, re.M):
+                    break
+                time.sleep(3 * (attempt + 1))
             r = {}
             chunks = re.split(r"@@BEGIN (\S+)\n", out)
             for i in range(1, len(chunks) - 1, 2):
@@ -1802,3 +1809,476 @@ Check.SRC_TIES["flowwhile"][4].append("Src_flowwhile_pckg_concat")
 FLOWFN_FN_TIES.append((("gen_run_call_understood",), _FFN + "run_call under a condition-position evaluation (FlowFnC.step_call_eval)",
                        ["Src_flowfn_call_eval_step"]))
 Check.SRC_TIES["flowfn"][4].extend(["Src_flowfn_call_eval_step", "Src_flowfn_scope_push", "Src_flowfn_scope_pop"])
+
+
+# --- appended (builder B28): translation tie "json" for C17 (no-panic content: C07) — the JSON <-> nested-handle glue of
+# `json_parse --collection` / `json_encode --collection`: create_structure and fn run of
+# duckscript_sdk/src/sdk/std/json/parse/mod.rs, encode_from_state_value / encode_from_state and fn run of json/encode/mod.rs
+# (lib/gen/json_gen.py -> coq/generated/GenJsonFn.v, proofs coq/theories/JsonGenTie.v, wrappers coq/props/SrcJson.v).  Same scheme
+# as COLLECTIONS_FN_TIES / FLOWIF_FN_TIES: the tie key's own flag (gen_json_understood) only says the generator ran; every
+# function has its OWN flag in GenJsonFn.v, a function the translator does not understand any more gets a stub, the theorems
+# that mention it (stated under `flag = true`) hold vacuously, and source_tie("json") then reports exactly those ties as
+# inactive (NOTE + evidence) and does not count their theorems as discharged.
+_JP, _JE = "duckscript_sdk/src/sdk/std/json/parse/mod.rs::", "duckscript_sdk/src/sdk/std/json/encode/mod.rs::"
+_JCS = ("gen_create_structure_step_understood", "gen_create_structure_understood")
+_JEV = ("gen_encode_from_state_value_step_understood", "gen_encode_from_state_value_understood")
+JSON_FN_TIES = [
+    (_JCS[:1], _JP + "create_structure (one recursion step)", ["Src_json_create_structure_step"]),
+    (_JCS, _JP + "create_structure", ["Src_json_create_structure"]),
+    (_JEV, _JE + "encode_from_state_value", ["Src_json_encode_from_state_value"]),
+    (_JEV + ("gen_encode_from_state_understood",), _JE + "encode_from_state", ["Src_json_encode_from_state"]),
+    (_JCS + ("gen_run_parse_understood",), _JP + "run", ["Src_json_run_parse"]),
+    (_JEV + ("gen_encode_from_state_understood", "gen_run_encode_understood"), _JE + "run", ["Src_json_run_encode"]),
+    (_JCS + _JEV + ("gen_encode_from_state_understood",), "json_parse --collection then json_encode --collection (C17_json_fuel about the "
+     "translations)", ["Src_json_roundtrip"]),
+]
+Check.SRC_TIES.update({
+    "json": ("GenJsonFn.v", "gen_json_understood", "props/SrcJson.vo", "DSP.SrcJson", [],
+             "json/parse/mod.rs::{create_structure, run} and json/encode/mod.rs::{encode_from_state_value, encode_from_state, run}"),
+})
+
+
+def _json_register():
+    base = dict(getattr(Check, "SRC_TIES_BASE", {}))
+    base["json"] = []
+    Check.SRC_TIES_BASE = base
+    if "json" not in getattr(Check, "SRC_TIES_PARTIAL", ()):
+        Check.SRC_TIES_PARTIAL = tuple(getattr(Check, "SRC_TIES_PARTIAL", ())) + ("json",)
+
+
+_json_register()
+Check.SRC_TIES["json"][4].extend(t for _f, _w, _ts in JSON_FN_TIES for t in _ts)
+_source_tie_before_json_fns = Check.source_tie
+
+
+def _source_tie_with_json_fns(self, which):
+    if which == "json":
+        _json_register()       # robust against a later block that re-assigns the two class attributes
+    ok = _source_tie_before_json_fns(self, which)
+    if which != "json":
+        return ok
+    try:
+        text = open(os.path.join(ROOT, "coq", "generated", "GenJsonFn.v")).read()
+    except OSError:
+        text = ""
+    info = self.coverage.setdefault("source_translation", {})
+
+    def on(flag):
+        return re.search(r"Definition %s : bool := true\." % flag, text) is not None
+
+    def why_not(flags):
+        out = []
+        for f in flags:
+            if on(f):
+                continue
+            short = re.sub(r"^gen_|_understood$", "", f)
+            m = re.search(r"\(\* NOT UNDERSTOOD %s: (.*?) \*\)" % re.escape(short), text, re.S)
+            out.append("%s: %s" % (short, " ".join(m.group(1).split())[:300] if m else "generated file missing"))
+        return "; ".join(out)
+    fns = {}
+    for flags, what, thms in JSON_FN_TIES:
+        if all(on(f) for f in flags):
+            fns[what] = {"active": True, "theorems": thms}
+            continue
+        why = why_not(flags)
+        fns[what] = {"active": False, "reason": why}
+        names = ["DSP.SrcJson.%s" % t for t in thms]
+        self.obligations[:] = [o for o in self.obligations if o not in names]
+        self.discharged[:] = [o for o in self.discharged if o not in names]
+        if isinstance(info.get("json", {}).get("theorems"), list):
+            info["json"]["theorems"] = [t for t in info["json"]["theorems"] if t not in thms]
+        print("NOTE: property=%s translation tie for %s is inactive on this tree (translator: %s); "
+              "the correspondence run is the only tie for it in this run" % (self.prop, what, why), flush=True)
+    info["json_fns"] = {"file": "coq/generated/GenJsonFn.v", "functions": fns,
+                        "meaning": "each listed function: the hand model (Json.v: create_structure, encode_from_state_value, "
+                                   "encode_from_state; JsonRun.v: cs_step, run_parse, run_encode) equals the mechanical translation of "
+                                   "the current source for all documents, stores, fuels, argument vectors and oracles (parse_json / "
+                                   "Value::to_string are oracle parameters; error texts erased; the encoder over String / List / SubState "
+                                   "values never answers Err; every context.arguments[i] an explicit JPanic arm, never reached; the "
+                                   "variable glue create_variables / encode_from_variables is NOT translated: JVars) (one flag per function)"}
+    return ok
+
+
+Check.source_tie = _source_tie_with_json_fns
+
+
+# --- appended (builder B31): translation tie "regcmds" for C15 (no-panic content: C07) — the `run` functions of the script-level
+# registry commands alias / unalias / remove_command / is_command_defined (duckscript_sdk/src/sdk/std/lib/alias/{set,unset}/mod.rs,
+# lib/command/remove/mod.rs, is_command_defined/mod.rs; lib/gen/regcmds_gen.py -> coq/generated/GenRegcmdsFn.v, proofs
+# coq/theories/RegcmdsGenTie.v, wrappers coq/props/SrcRegcmds.v).  Same scheme as PARSER_REST_TIES / STRINGS_CMD_TIES: the tie key's
+# own flag (gen_regcmds_understood) only says the generator ran; every command has its OWN flag, a command the translator does not
+# understand any more gets a stub, its theorem (stated under `flag = true`) holds vacuously, and source_tie("regcmds") then reports
+# exactly that command's tie as inactive (NOTE + evidence) and does not count its theorem as discharged.
+_REGCMDS_STD = "duckscript_sdk/src/sdk/std/"
+REGCMDS_CMD_TIES = [
+    (("gen_cmd_is_command_defined_understood",), _REGCMDS_STD + "is_command_defined/mod.rs::run", ["Src_regcmds_is_command_defined"]),
+    (("gen_cmd_remove_command_understood",), _REGCMDS_STD + "lib/command/remove/mod.rs::run", ["Src_regcmds_remove_command"]),
+    (("gen_cmd_unalias_understood",), _REGCMDS_STD + "lib/alias/unset/mod.rs::run", ["Src_regcmds_unalias"]),
+    (("gen_cmd_alias_understood",), _REGCMDS_STD + "lib/alias/set/mod.rs::{run, create_alias_command}", ["Src_regcmds_alias"]),
+    (("gen_cmd_is_command_defined_understood", "gen_cmd_remove_command_understood", "gen_cmd_unalias_understood",
+      "gen_cmd_alias_understood"), "histories of the four script-level registry commands (Registry.srun)", ["Src_regcmds_srun"]),
+]
+Check.SRC_TIES.update({
+    "regcmds": ("GenRegcmdsFn.v", "gen_regcmds_understood", "props/SrcRegcmds.vo", "DSP.SrcRegcmds", [],
+                "duckscript_sdk/src/sdk/std: run of alias / unalias / remove_command / is_command_defined"),
+})
+
+
+def _regcmds_register():
+    base = dict(getattr(Check, "SRC_TIES_BASE", {}))
+    base["regcmds"] = []
+    Check.SRC_TIES_BASE = base
+    if "regcmds" not in getattr(Check, "SRC_TIES_PARTIAL", ()):
+        Check.SRC_TIES_PARTIAL = tuple(getattr(Check, "SRC_TIES_PARTIAL", ())) + ("regcmds",)
+
+
+_regcmds_register()
+Check.SRC_TIES["regcmds"][4].extend(t for _f, _w, _ts in REGCMDS_CMD_TIES for t in _ts)
+_source_tie_before_regcmds = Check.source_tie
+
+
+def _source_tie_with_regcmds(self, which):
+    if which == "regcmds":
+        _regcmds_register()       # robust against a later block that re-assigns the two class attributes
+    ok = _source_tie_before_regcmds(self, which)
+    if which != "regcmds":
+        return ok
+    try:
+        text = open(os.path.join(ROOT, "coq", "generated", "GenRegcmdsFn.v")).read()
+    except OSError:
+        text = ""
+    info = self.coverage.setdefault("source_translation", {})
+
+    def on(flag):
+        return re.search(r"Definition %s : bool := true\." % flag, text) is not None
+
+    def why_not(flags):
+        out = []
+        for f in flags:
+            if on(f):
+                continue
+            short = re.sub(r"^gen_cmd_|_understood$", "", f)
+            m = re.search(r"\(\* NOT UNDERSTOOD %s: (.*?) \*\)" % re.escape(short), text, re.S)
+            out.append("%s: %s" % (short, " ".join(m.group(1).split())[:300] if m else "generated file missing"))
+        return "; ".join(out)
+    cmds = {}
+    for flags, what, thms in REGCMDS_CMD_TIES:
+        if all(on(f) for f in flags):
+            cmds[what] = {"active": True, "theorems": thms}
+            continue
+        why = why_not(flags)
+        cmds[what] = {"active": False, "reason": why}
+        names = ["DSP.SrcRegcmds.%s" % t for t in thms]
+        self.obligations[:] = [o for o in self.obligations if o not in names]
+        self.discharged[:] = [o for o in self.discharged if o not in names]
+        if isinstance(info.get("regcmds", {}).get("theorems"), list):
+            info["regcmds"]["theorems"] = [t for t in info["regcmds"]["theorems"] if t not in thms]
+        print("NOTE: property=%s translation tie for %s is inactive on this tree (translator: %s); "
+              "the correspondence run is the only tie for it in this run" % (self.prop, what, why), flush=True)
+    info["regcmds_cmds"] = {"file": "coq/generated/GenRegcmdsFn.v", "commands": cmds,
+                            "meaning": "each listed command: the arm of the hand model Registry.sstep (SAlias / SUnalias / SRemoveCommand / "
+                                       "SIsDefined) equals the mechanical translation of the current `run` for all argument vectors and all "
+                                       "states (registry, alias sub-state as a set of names, fn names), and the translation (every "
+                                       "arguments[i] / arguments[1..] an explicit panic arm = None) never panics; the registry methods the "
+                                       "commands call are the hand model functions tied to `impl Commands` by the tie `registry` "
+                                       "(one flag per command)"}
+    return ok
+
+
+Check.source_tie = _source_tie_with_regcmds
+
+
+# --- appended (builder B32): translation tie "codeccmds" for C17 (and C07: the `arguments[i]` panic arms are shown dead) — the
+# `run` functions of the byte / base64 / properties glue commands (duckscript_sdk/src/sdk/std/string/{string_to_bytes,
+# bytes_to_string, base64_encode, base64_decode}/mod.rs, collections/{map_to_properties, map_load_properties}/mod.rs;
+# lib/gen/codeccmds_gen.py -> coq/generated/GenCodeccmdsFn.v, command models coq/theories/CodecCmds.v, proofs
+# coq/theories/CodeccmdsGenTie.v, wrappers coq/props/SrcCodeccmds.v).  Same scheme as PARSER_REST_TIES / STRINGS_CMD_TIES: the
+# tie key's own flag (gen_codeccmds_understood) only says the generator ran; every command has its OWN flag in
+# GenCodeccmdsFn.v, a command the translator does not understand any more gets a stub, its theorem (stated under `flag = true`)
+# holds vacuously, and source_tie("codeccmds") then reports exactly that command's tie as inactive (NOTE + evidence) and does not
+# count its theorem as discharged.  The flag-less theorems (the C17 round trips THROUGH the command models) are checked whenever
+# source_tie("codeccmds") runs.  A command that is not (yet) in GenCodeccmdsFn.v at all is skipped silently.
+CODECCMDS_CMD_TIES = [
+    ("gen_cmd_%s_understood" % _c, "duckscript_sdk/src/sdk/std/%s/mod.rs::run" % _p, ["Src_codeccmds_%s" % _c])
+    for _c, _p in [
+        ("string_to_bytes", "string/string_to_bytes"), ("bytes_to_string", "string/bytes_to_string"),
+        ("base64_encode", "string/base64_encode"), ("base64_decode", "string/base64_decode"),
+        ("map_to_properties", "collections/map_to_properties"), ("map_load_properties", "collections/map_load_properties")]
+]
+CODECCMDS_BASE_THMS = ["Src_codeccmds_utf8_roundtrip", "Src_codeccmds_b64_roundtrip", "Src_codeccmds_text_b64_roundtrip"]
+CODECCMDS_PROPS_THMS = ["Src_codeccmds_properties_roundtrip"]     # present once the two properties commands are covered
+Check.SRC_TIES.update({
+    "codeccmds": ("GenCodeccmdsFn.v", "gen_codeccmds_understood", "props/SrcCodeccmds.vo", "DSP.SrcCodeccmds",
+                  list(CODECCMDS_BASE_THMS),
+                  "duckscript_sdk/src/sdk/std: run of string_to_bytes / bytes_to_string / base64_encode / base64_decode / "
+                  "map_to_properties / map_load_properties"),
+})
+
+
+def _codeccmds_text():
+    try:
+        return open(os.path.join(ROOT, "coq", "generated", "GenCodeccmdsFn.v")).read()
+    except OSError:
+        return ""
+
+
+def _codeccmds_covered():
+    """the commands GenCodeccmdsFn.v has a flag for (true or false), and whether props/SrcCodeccmds.v states the properties link"""
+    text = _codeccmds_text()
+    cmds = [(f, w, ts) for f, w, ts in CODECCMDS_CMD_TIES if re.search(r"Definition %s : bool := " % f, text)]
+    try:
+        src = open(os.path.join(ROOT, "coq", "props", "SrcCodeccmds.v")).read()
+    except OSError:
+        src = ""
+    extra = [t for t in CODECCMDS_PROPS_THMS if re.search(r"Theorem %s\b" % t, src)]
+    return cmds, extra
+
+
+def _codeccmds_register():
+    cmds, extra = _codeccmds_covered()
+    base = dict(getattr(Check, "SRC_TIES_BASE", {}))
+    base["codeccmds"] = list(CODECCMDS_BASE_THMS) + extra
+    Check.SRC_TIES_BASE = base
+    if "codeccmds" not in getattr(Check, "SRC_TIES_PARTIAL", ()):
+        Check.SRC_TIES_PARTIAL = tuple(getattr(Check, "SRC_TIES_PARTIAL", ())) + ("codeccmds",)
+    Check.SRC_TIES["codeccmds"][4][:] = base["codeccmds"] + [t for _f, _w, ts in cmds for t in ts]
+    return cmds
+
+
+_codeccmds_register()
+_source_tie_before_codeccmds = Check.source_tie
+
+
+def _source_tie_with_codeccmds(self, which):
+    if which != "codeccmds":
+        return _source_tie_before_codeccmds(self, which)
+    cmds = _codeccmds_register()       # after gen_from_source of this run; robust against later re-assignments
+    ok = _source_tie_before_codeccmds(self, which)
+    text = _codeccmds_text()
+    info = self.coverage.setdefault("source_translation", {})
+    out = {}
+    for flag, what, thms in cmds:
+        cmd = flag[len("gen_cmd_"):-len("_understood")]
+        if re.search(r"Definition %s : bool := true\." % flag, text) is not None:
+            out[cmd] = {"active": True, "theorems": thms}
+            continue
+        m = re.search(r"\(\* NOT UNDERSTOOD %s: (.*?) \*\)" % re.escape(cmd), text, re.S)
+        why = " ".join(m.group(1).split())[:300] if m else "generated file missing"
+        out[cmd] = {"active": False, "reason": why}
+        names = ["DSP.SrcCodeccmds.%s" % t for t in thms]
+        self.obligations[:] = [o for o in self.obligations if o not in names]
+        self.discharged[:] = [o for o in self.discharged if o not in names]
+        if isinstance(info.get("codeccmds", {}).get("theorems"), list):
+            info["codeccmds"]["theorems"] = [t for t in info["codeccmds"]["theorems"] if t not in thms]
+        print("NOTE: property=%s translation tie for %s is inactive on this tree (translator: %s); "
+              "the correspondence run is the only tie for it in this run" % (self.prop, what, why), flush=True)
+    info["codeccmds_cmds"] = {"file": "coq/generated/GenCodeccmdsFn.v", "commands": out,
+                              "meaning": "each listed command: the command model cmd_<name> (CodecCmds.v: argument test, handle "
+                                         "lookup, kind of the value found, error kinds, put_handle, around the codec functions of "
+                                         "Codec.v / CodecProps.v) equals the mechanical translation of the current `run` for all "
+                                         "argument vectors and all states of the handle table, and the translation (every "
+                                         "arguments[i] an explicit CPanic arm) never panics (one flag per command)"}
+    return ok
+
+
+Check.source_tie = _source_tie_with_codeccmds
+
+
+# --- appended (builder B28, second part): finding F23 read off the translation of encode_from_state_value — on a store whose
+# list holds its own handle the translated encoder is out of fuel for EVERY fuel (props/SrcJson.v, flags of the encoder).
+JSON_FN_TIES.append((_JEV, _JE + "encode_from_state_value on a store with a cycle (F23: out of fuel for every fuel)",
+                     ["Src_json_cycle_out_of_fuel"]))
+Check.SRC_TIES["json"][4].append("Src_json_cycle_out_of_fuel")
+
+
+# --- appended (builder B30): translation tie "smallnat" for C03 / C04 / C05 / C09 (no-panic content: C07) — the small native commands
+# the flow / wrapped-call models pass through: the generic `end` dispatch (sdk/std/flowcontrol/end/mod.rs: get_command,
+# CommandImpl::run), goto (flowcontrol/goto/mod.rs), not (not/mod.rs), noop (noop/mod.rs), eval (eval/mod.rs + fn eval /
+# eval_with_error of utils/eval.rs)  (lib/gen/smallnat_gen.py -> coq/generated/GenSmallnatFn.v, proofs coq/theories/SmallnatGenTie.v +
+# SmallnatLink.v, wrappers coq/props/SrcSmallnat.v).  Same scheme as FLOWIF_FN_TIES: the tie key's own flag (gen_smallnat_understood)
+# only says the generator ran; every generated function has its OWN flag, a function the translator does not understand any more
+# (or that calls one it does not understand) gets a stub, its theorems (stated under `flag = true`) hold vacuously, and
+# source_tie("smallnat") then reports exactly that tie as inactive (NOTE + evidence) and does not count its theorems as
+# discharged.  gen_end_get_command calls GenFlowifFn.gen_get_line_key (tie "flowif"): that flag is looked up in GenFlowifFn.v.
+_SN_STD = "duckscript_sdk/src/sdk/std/"
+_SN_END = ("gen_get_line_key_understood", "gen_end_get_command_understood")
+_SN_EVAL = ("gen_eval_understood", "gen_eval_with_error_understood", "gen_eval_run_understood")
+SMALLNAT_FN_TIES = [
+    (_SN_END, _SN_STD + "flowcontrol/end/mod.rs::get_command", ["Src_smallnat_end_get"]),
+    (_SN_END + ("gen_end_run_understood",), _SN_STD + "flowcontrol/end/mod.rs::CommandImpl::run",
+     ["Src_smallnat_step_end", "Src_smallnat_step_end_fn"]),
+    (("gen_goto_run_understood",), _SN_STD + "flowcontrol/goto/mod.rs::CommandImpl::run",
+     ["Src_smallnat_goto", "Src_smallnat_goto_jump", "Src_smallnat_goto_no_panic"]),
+    (("gen_not_run_understood",), _SN_STD + "not/mod.rs::CommandImpl::run",
+     ["Src_smallnat_not", "Src_smallnat_not_cnot", "Src_smallnat_not_fcnot", "Src_smallnat_not_no_panic"]),
+    (("gen_noop_run_understood",), _SN_STD + "noop/mod.rs::CommandImpl::run", ["Src_smallnat_noop"]),
+    (_SN_EVAL, _SN_STD + "eval/mod.rs::CommandImpl::run + duckscript_sdk/src/utils/eval.rs::eval_with_error / eval",
+     ["Src_smallnat_eval", "Src_smallnat_eval_parsed", "Src_smallnat_eval_no_panic"]),
+]
+_SN_BASE = ["Src_smallnat_end_dispatch_step", "Src_smallnat_end_dispatch_fn_step", "Src_smallnat_goto_exec", "Src_smallnat_eval_call"]
+Check.SRC_TIES.update({
+    "smallnat": ("GenSmallnatFn.v", "gen_smallnat_understood", "props/SrcSmallnat.vo", "DSP.SrcSmallnat", list(_SN_BASE),
+                 "the small native commands end (generic dispatch) / goto / not / noop / eval (sdk/std/flowcontrol/{end,goto}, "
+                 "sdk/std/{not,noop,eval}, utils/eval.rs::eval_with_error)"),
+})
+
+
+def _smallnat_register():
+    base = dict(getattr(Check, "SRC_TIES_BASE", {}))
+    base["smallnat"] = list(_SN_BASE)
+    Check.SRC_TIES_BASE = base
+    if "smallnat" not in getattr(Check, "SRC_TIES_PARTIAL", ()):
+        Check.SRC_TIES_PARTIAL = tuple(getattr(Check, "SRC_TIES_PARTIAL", ())) + ("smallnat",)
+
+
+_smallnat_register()
+Check.SRC_TIES["smallnat"][4].extend(t for _f, _w, _ts in SMALLNAT_FN_TIES for t in _ts)
+_source_tie_before_smallnat_fns = Check.source_tie
+
+
+def _source_tie_with_smallnat_fns(self, which):
+    if which == "smallnat":
+        _smallnat_register()       # robust against a later block that re-assigns the two class attributes
+    ok = _source_tie_before_smallnat_fns(self, which)
+    if which != "smallnat":
+        return ok
+    text = ""
+    for g in ("GenSmallnatFn.v", "GenFlowifFn.v"):
+        try:
+            text += open(os.path.join(ROOT, "coq", "generated", g)).read() + "\n"
+        except OSError:
+            pass
+    info = self.coverage.setdefault("source_translation", {})
+
+    def on(flag):
+        return re.search(r"Definition %s : bool := true\." % flag, text) is not None
+
+    def why_not(flags):
+        out = []
+        for f in flags:
+            if on(f):
+                continue
+            short = re.sub(r"^gen_|_understood$", "", f)
+            m = re.search(r"\(\* NOT UNDERSTOOD %s: (.*?) \*\)" % re.escape(short), text, re.S)
+            out.append("%s: %s" % (short, " ".join(m.group(1).split())[:300] if m else "generated file missing"))
+        return "; ".join(out)
+    fns = {}
+    for flags, what, thms in SMALLNAT_FN_TIES:
+        if all(on(f) for f in flags):
+            fns[what] = {"active": True, "theorems": thms}
+            continue
+        why = why_not(flags)
+        fns[what] = {"active": False, "reason": why}
+        names = ["DSP.SrcSmallnat.%s" % t for t in thms]
+        self.obligations[:] = [o for o in self.obligations if o not in names]
+        self.discharged[:] = [o for o in self.discharged if o not in names]
+        if isinstance(info.get("smallnat", {}).get("theorems"), list):
+            info["smallnat"]["theorems"] = [t for t in info["smallnat"]["theorems"] if t not in thms]
+        print("NOTE: property=%s translation tie for %s is inactive on this tree (translator: %s); "
+              "the correspondence run is the only tie for it in this run" % (self.prop, what, why), flush=True)
+    info["smallnat_fns"] = {"file": "coq/generated/GenSmallnatFn.v", "functions": fns,
+                            "meaning": "each listed function equals, for all inputs, the mechanical translation of the current source: "
+                                       "end = Flow.step_end / FlowFn.step_end_fn on the image of the embedding emb lcn / embC lcn (end-table "
+                                       "lookup under the key `lcn::line`, dispatch to the stored command at this line, for every "
+                                       "run_instruction that does what the machine's own step does); goto / not / noop / eval = the "
+                                       "command-level functions goto_cmd / not_cmd / noop_cmd / eval_cmd of SmallnatGenTie.v, linked to "
+                                       "Runner.exec (C03), Flow.eval_cond CNot / FlowFnC.ceval FCNot (C04 / C05) and EvalSer.eval_parse / "
+                                       "eval_call (C09); results are compared by kind, output, goto target and error CODE (message texts "
+                                       "are not); callees run_instruction / eval_condition / parse are function parameters "
+                                       "(one flag per generated function)"}
+    return ok
+
+
+Check.source_tie = _source_tie_with_smallnat_fns
+
+
+# --- appended (builder B29): translation tie "fs" for C18 — the `run` functions of the file commands
+# (duckscript_sdk/src/sdk/std/fs/{touch,mkdir,rmdir,exists,is_file,is_directory,get_file_size,read_text,read_bytes,write_text,
+# append,write_bytes,rm,cp,mv}/mod.rs with the helpers of utils/io.rs inlined; lib/gen/fs_gen.py -> coq/generated/GenFsFn.v,
+# proofs coq/theories/FsGenTie.v over the command layer coq/theories/FsCmd.v, wrappers coq/props/SrcFs.v).  Same scheme as
+# STRINGS_CMD_TIES: the tie key's own flag (gen_fs_understood) only says the generator ran; every command has its OWN flag, a
+# command the translator does not understand any more gets a stub, its theorem (stated under `flag = true`) holds vacuously, and
+# source_tie("fs") reports exactly that command's tie as inactive (NOTE + evidence) and does not count its theorem.
+FS_CMD_TIES = [
+    ("gen_cmd_%s_understood" % _c, "duckscript_sdk/src/sdk/std/fs/%s/mod.rs::run" % _p, ["Src_fs_%s" % _c])
+    for _c, _p in [
+        ("touch", "touch"), ("mkdir", "mkdir"), ("rmdir", "rmdir"), ("exists", "exists"), ("is_file", "is_file"),
+        ("is_dir", "is_directory"), ("size", "get_file_size"), ("read", "read_text"), ("readb", "read_bytes"),
+        ("write", "write_text"), ("append", "append"), ("writeb", "write_bytes"), ("rm", "rm"), ("cp", "cp"), ("mv", "mv")]
+]
+
+
+def _fs_register():
+    if "fs" not in Check.SRC_TIES:
+        Check.SRC_TIES.update({
+            "fs": ("GenFsFn.v", "gen_fs_understood", "props/SrcFs.vo", "DSP.SrcFs", [],
+                   "duckscript_sdk/src/sdk/std/fs: run of the file commands (+ utils/io.rs)"),
+        })
+        Check.SRC_TIES["fs"][4].extend(t for _f, _w, _ts in FS_CMD_TIES for t in _ts)
+    base = dict(getattr(Check, "SRC_TIES_BASE", {}))
+    base["fs"] = []
+    Check.SRC_TIES_BASE = base
+    if "fs" not in tuple(getattr(Check, "SRC_TIES_PARTIAL", ())):
+        Check.SRC_TIES_PARTIAL = tuple(getattr(Check, "SRC_TIES_PARTIAL", ())) + ("fs",)
+
+
+_fs_register()
+_source_tie_before_fs_cmds = Check.source_tie
+
+
+def _source_tie_with_fs_cmds(self, which):
+    if which == "fs":
+        _fs_register()
+    ok = _source_tie_before_fs_cmds(self, which)
+    if which != "fs":
+        return ok
+    try:
+        text = open(os.path.join(ROOT, "coq", "generated", "GenFsFn.v")).read()
+    except OSError:
+        text = ""
+    info = self.coverage.setdefault("source_translation", {})
+    cmds = {}
+    for flag, what, thms in FS_CMD_TIES:
+        cmd = flag[len("gen_cmd_"):-len("_understood")]
+        if re.search(r"Definition %s : bool := true\." % flag, text) is not None:
+            cmds[cmd] = {"active": True, "theorems": thms}
+            continue
+        m = re.search(r"\(\* NOT UNDERSTOOD %s: (.*?) \*\)" % re.escape(cmd), text, re.S)
+        why = " ".join(m.group(1).split())[:300] if m else "generated file missing"
+        cmds[cmd] = {"active": False, "reason": why}
+        names = ["DSP.SrcFs.%s" % t for t in thms]
+        self.obligations[:] = [o for o in self.obligations if o not in names]
+        self.discharged[:] = [o for o in self.discharged if o not in names]
+        if isinstance(info.get("fs", {}).get("theorems"), list):
+            info["fs"]["theorems"] = [t for t in info["fs"]["theorems"] if t not in thms]
+        print("NOTE: property=%s translation tie for %s is inactive on this tree (translator: %s); "
+              "the correspondence run is the only tie for it in this run" % (self.prop, what, why), flush=True)
+    info["fs_cmds"] = {"file": "coq/generated/GenFsFn.v", "commands": cmds,
+                       "meaning": "each listed command: for every environment (path resolution, handles sub-state, directory-source "
+                                  "primitives), argument vector and tree, the mechanical translation of the current `run` (helpers of "
+                                  "utils/io.rs inlined, every arguments[i] an explicit unwinding arm, the tree threaded through the "
+                                  "primitive calls in source order) equals Some of ONE history step FsTree.M_step of the C18 model on the "
+                                  "arguments read as paths / text / a byte-array handle (FsCmd.v); the primitives of fsio / std::fs / "
+                                  "fs_extra / Path are the configured tree operations of FsTree.v section 1 (one flag per command)"}
+    return ok
+
+
+Check.source_tie = _source_tie_with_fs_cmds
+
+
+# --- appended (builder B32, second part): props/SrcCodeccmds.v also states, flag-less, that the command model of
+# map_to_properties on a map of strings IS CodecProps.cmd_map_to_properties (the function C17_properties* are about); the name
+# joins the optional hand-model theorems of the tie "codeccmds" (counted only when the props file states it).
+CODECCMDS_PROPS_THMS.append("Src_codeccmds_map_to_properties_link")
+
+
+# --- appended (builder B31, second part): translation tie "regfn" for C15 (no-panic content: C07) — the REGISTRY VIEW of
+# FunctionCommand::run (duckscript_sdk/src/sdk/std/flowcontrol/function/mod.rs; lib/gen/regfn_gen.py -> coq/generated/GenRegfnFn.v,
+# proofs coq/theories/RegfnGenTie.v, wrappers coq/props/SrcRegfn.v): the SFn arm of Registry.sstep equals the translation on its
+# domain (name stored before Commands::set, a refusal is an error without rollback), and off that domain the command answers an
+# error / a crash with the state unchanged.  One flag (gen_fn_register_understood); plain SRC_TIES scheme.
+Check.SRC_TIES.update({
+    "regfn": ("GenRegfnFn.v", "gen_fn_register_understood", "props/SrcRegfn.vo", "DSP.SrcRegfn",
+              ["Src_regfn_register", "Src_regfn_off_domain"],
+              "duckscript_sdk/src/sdk/std/flowcontrol/function/mod.rs::FunctionCommand::run (registry view: what `fn` registers)"),
+})
